@@ -1075,6 +1075,8 @@ class Engine:
             r = hook(self, base, attr)
             if r is not NotImplemented:
                 return r
+        if isinstance(base, SymSeq) and attr == "shape":
+            return (base.length,)
         raise OutsideSubset("attribute {} of {!r}".format(attr, type(base).__name__))
 
     getattr_hooks = []
